@@ -300,3 +300,39 @@ def awaited_call_under_with(repo: Repo, module: str, cls, method: str, call_pref
                     out.append(ob(key, held, f"`await {ast.unparse(n.value)[:70]}` at line {n.lineno} runs "
                                              f"{'inside' if held else 'OUTSIDE'} `async with {ctx_prefix}...`", n.lineno))
     return out
+
+
+def call_present_under_with(repo: Repo, module: str, cls, method: str, call_src_suffix: str, ctx_src: str):
+    """the method contains a call whose function text ends with call_src_suffix, inside `with/async with <ctx_src>`"""
+    fi = _method(repo, module, cls, method)
+    par = parents(fi.node)
+    found = []
+    for n in ast.walk(fi.node):
+        if isinstance(n, ast.Call) and ast.unparse(n.func).endswith(call_src_suffix):
+            cur, held = n, False
+            while cur in par:
+                cur = par[cur]
+                if isinstance(cur, (ast.With, ast.AsyncWith)) and any(ast.unparse(i.context_expr) == ctx_src for i in cur.items):
+                    held = True
+            found.append((n, held))
+    ok = any(h for _, h in found)
+    return [ob(f"{module}.{cls}.{method}/calls:{call_src_suffix}", ok,
+               f"{cls}.{method} {'calls' if ok else 'does NOT call'} `{call_src_suffix}(...)` inside `async with {ctx_src}` "
+               f"({len(found)} call site(s) found)", fi.lineno)]
+
+
+def attr_initialised_as(repo: Repo, module: str, cls: str, attr: str, ctor_src: str):
+    """__init__ assigns self.<attr> = <ctor_src>(...)"""
+    fi = _method(repo, module, cls, "__init__")
+    ok = False
+    for n in ast.walk(fi.node):
+        tgt = None
+        if isinstance(n, ast.Assign) and len(n.targets) == 1:
+            tgt, val = n.targets[0], n.value
+        elif isinstance(n, ast.AnnAssign) and n.value is not None:
+            tgt, val = n.target, n.value
+        if tgt is not None and ast.unparse(tgt) == f"self.{attr}" and isinstance(val, ast.Call) \
+                and ast.unparse(val.func) == ctor_src:
+            ok = True
+    return [ob(f"{module}.{cls}.__init__/{attr}-is-{ctor_src}", ok,
+               f"self.{attr} is {'' if ok else 'NOT '}created as {ctor_src}(...)", fi.lineno)]
